@@ -127,6 +127,9 @@ private:
         __TBB_ASSERT(r.is_divisible(), "can't split not divisible range");
 
         auto my_it = std::max_element(my_dims.begin(), my_dims.end(), [](const dim_range_type& first, const dim_range_type& second) {
+            // A dimension that is not divisible is never preferred to a divisible one,
+            // whatever the rounding of the ratio comparison says
+            if (first.is_divisible() != second.is_divisible()) return second.is_divisible();
             return (first.size() * double(second.grainsize()) < second.size() * double(first.grainsize()));
         });
 
